@@ -115,6 +115,7 @@ fn main() {
                 observers: get("observers", "0") == "1",
                 replay_welcomes: get("wreplay", "0") == "1",
                 junk: get("junk", "0") == "1",
+                groups2: get("groups", "1") == "2",
                 adversary: get("adv", "0") == "1",
             };
             let f = std::fs::File::create(out).expect("create out");
